@@ -89,15 +89,76 @@ pub fn short_loc(panic_msg: &str) -> String {
     }
 }
 
-/// 128-bit hash of a hashable value (two differently keyed SipHash passes).
+/// Fast 128-bit hasher (two independently keyed multiply-rotate lanes with a final avalanche);
+/// used only for deduplication keys.
+pub struct Hasher128 {
+    a: u64,
+    b: u64,
+    len: u64,
+}
+
+impl Hasher128 {
+    pub fn new() -> Self {
+        Hasher128 { a: 0x9e37_79b9_7f4a_7c15, b: 0xc2b2_ae3d_27d4_eb4f, len: 0 }
+    }
+    #[inline]
+    fn mix(&mut self, x: u64) {
+        self.a = (self.a ^ x).wrapping_mul(0xff51_afd7_ed55_8ccd).rotate_left(29);
+        self.b = (self.b.rotate_left(31) ^ x.wrapping_mul(0x9fb2_1c65_1e98_df25)).wrapping_mul(0xc4ce_b9fe_1a85_ec53);
+    }
+    pub fn finish128(&self) -> u128 {
+        let fin = |mut z: u64| {
+            z ^= z >> 33;
+            z = z.wrapping_mul(0xff51_afd7_ed55_8ccd);
+            z ^= z >> 33;
+            z = z.wrapping_mul(0xc4ce_b9fe_1a85_ec53);
+            z ^ (z >> 33)
+        };
+        let a = fin(self.a ^ self.len);
+        let b = fin(self.b ^ self.len.rotate_left(17) ^ a);
+        ((a as u128) << 64) | b as u128
+    }
+}
+
+impl Hasher for Hasher128 {
+    fn finish(&self) -> u64 {
+        self.finish128() as u64
+    }
+    #[inline]
+    fn write(&mut self, bytes: &[u8]) {
+        self.len = self.len.wrapping_add(bytes.len() as u64 + 1);
+        let mut chunks = bytes.chunks_exact(8);
+        for c in &mut chunks {
+            self.mix(u64::from_le_bytes(c.try_into().unwrap()));
+        }
+        let rem = chunks.remainder();
+        if !rem.is_empty() {
+            let mut buf = [0u8; 8];
+            buf[..rem.len()].copy_from_slice(rem);
+            self.mix(u64::from_le_bytes(buf) ^ ((rem.len() as u64) << 56));
+        }
+    }
+    #[inline]
+    fn write_u64(&mut self, x: u64) {
+        self.len = self.len.wrapping_add(9);
+        self.mix(x);
+    }
+    #[inline]
+    fn write_u8(&mut self, x: u8) {
+        self.len = self.len.wrapping_add(2);
+        self.mix(x as u64 | 0x100);
+    }
+    #[inline]
+    fn write_usize(&mut self, x: usize) {
+        self.write_u64(x as u64);
+    }
+}
+
+/// 128-bit hash of a hashable value.
 pub fn hash128<T: Hash>(t: &T) -> u128 {
-    #[allow(deprecated)]
-    let mut h1 = std::hash::SipHasher::new_with_keys(0x5bd1_e995_1234_5678, 0x9e37_79b9_7f4a_7c15);
-    t.hash(&mut h1);
-    #[allow(deprecated)]
-    let mut h2 = std::hash::SipHasher::new_with_keys(0xc2b2_ae35_8765_4321, 0x1656_67b1_9e37_79f9);
-    t.hash(&mut h2);
-    ((h1.finish() as u128) << 64) | h2.finish() as u128
+    let mut h = Hasher128::new();
+    t.hash(&mut h);
+    h.finish128()
 }
 
 /// Deterministic pseudo-random generator (splitmix64); used only to *build* payloads, never to
